@@ -1,3 +1,637 @@
 //go:build verif
 
 package main
+
+// In-package checks for cmd/hidi, injected with -overlay (never copied into /repo):
+//   C18  updateHIDIConfiguration  (start-up upkeep)
+//   C09  LoadHIDIConfig           (hidi.toml is read totally: value or error)
+
+import (
+	"bytes"
+	"crypto/sha256"
+	"fmt"
+	"io/fs"
+	"os"
+	"path/filepath"
+	"sort"
+	"strings"
+	"testing"
+	"time"
+
+	harness "github.com/gethiox/HIDI/verifharness"
+	"pgregory.net/rapid"
+)
+
+func init() {
+	// package main has its own logger instance; all of them write to logger.Messages, which the harness drains
+}
+
+// ---------------------------------------------------------------- templates
+
+type tmplFile struct {
+	Path string
+	Data []byte
+	Dir  bool
+}
+
+// templateWalk lists the embedded tree in fs.WalkDir order (the order upkeep creates things in).
+func templateWalk(root string) []tmplFile {
+	var out []tmplFile
+	_ = fs.WalkDir(templateConfig, root, func(path string, d fs.DirEntry, err error) error {
+		if err != nil {
+			return err
+		}
+		if d.IsDir() {
+			out = append(out, tmplFile{Path: path, Dir: true})
+			return nil
+		}
+		data, _ := fs.ReadFile(templateConfig, path)
+		out = append(out, tmplFile{Path: path, Data: data})
+		return nil
+	})
+	return out
+}
+
+var allTemplates = templateWalk("hidi-config")
+var factoryTemplates = templateWalk("hidi-config/factory")
+
+func factoryFiles() []tmplFile {
+	var out []tmplFile
+	for _, f := range factoryTemplates {
+		if !f.Dir {
+			out = append(out, f)
+		}
+	}
+	return out
+}
+
+// ---------------------------------------------------------------- C18
+
+type c18File struct {
+	Path string `json:"path"`
+	Data []byte `json:"data"`
+}
+
+type C18Case struct {
+	DirExists   bool              `json:"dir_exists"`
+	Factory     map[string]string `json:"factory"`      // template path -> intact | absent | trunc:<n> | shorter | same | longer
+	AbsentDirs  []string          `json:"absent_dirs"`  // of hidi-config/factory, .../gamepad, .../keyboard
+	User        []c18File         `json:"user"`         // arbitrary files below hidi-config/user
+	HidiToml    *[]byte           `json:"hidi_toml"`    // nil: absent
+	Blacklist   *[]byte           `json:"blacklist"`    // nil: absent
+	Extra       []c18File         `json:"extra"`        // other files in hidi-config (not below factory/ or user/)
+	Reruns      int               `json:"reruns"`
+	CrashKind   string            `json:"crash_kind"`   // "" | "create" | "update": the state left by an interrupted earlier run
+	CrashAfter  int               `json:"crash_after"`  // index into the walk: entries before it are complete
+	CrashAtByte int               `json:"crash_at_byte"` // the entry at CrashAfter is a file cut at this byte (if it is a file)
+}
+
+func snapshot(root string) map[string]string {
+	out := map[string]string{}
+	_ = filepath.Walk(root, func(path string, info os.FileInfo, err error) error {
+		if err != nil {
+			return nil
+		}
+		rel, _ := filepath.Rel(root, path)
+		if info.IsDir() {
+			out[rel+"/"] = "dir"
+			return nil
+		}
+		data, _ := os.ReadFile(path)
+		out[rel] = fmt.Sprintf("%d:%x", len(data), sha256.Sum256(data))
+		return nil
+	})
+	return out
+}
+
+func writeFileMk(path string, data []byte) error {
+	if err := os.MkdirAll(filepath.Dir(path), 0o777); err != nil {
+		return err
+	}
+	return os.WriteFile(path, data, 0o666)
+}
+
+func modified(kind string, tmpl []byte) []byte {
+	switch {
+	case kind == "shorter":
+		out := append([]byte{}, tmpl[:len(tmpl)/2]...)
+		if len(out) > 0 {
+			out[0] ^= 0x01
+		}
+		return out
+	case kind == "same":
+		out := append([]byte{}, tmpl...)
+		for i := range out {
+			if i%7 == 3 {
+				out[i] ^= 0x20
+			}
+		}
+		if len(out) == 0 {
+			return []byte("x")
+		}
+		return out
+	case kind == "longer":
+		return append(append([]byte{}, tmpl...), []byte("\n# local edit that makes the file longer than its template\n[extra]\nvalue = 1\n")...)
+	case strings.HasPrefix(kind, "trunc:"):
+		var n int
+		fmt.Sscanf(kind, "trunc:%d", &n)
+		if n > len(tmpl) {
+			n = len(tmpl)
+		}
+		return append([]byte{}, tmpl[:n]...)
+	}
+	return tmpl
+}
+
+func buildC18(c *C18Case) error {
+	if !c.DirExists && c.CrashKind == "" {
+		return nil
+	}
+	if err := os.MkdirAll("hidi-config", 0o777); err != nil {
+		return err
+	}
+	if c.CrashKind == "create" {
+		// an earlier first run was interrupted: entries of the full walk before CrashAfter exist, the next one is cut
+		for i, e := range allTemplates {
+			if i > c.CrashAfter {
+				break
+			}
+			if e.Dir {
+				_ = os.MkdirAll(e.Path, 0o777)
+				continue
+			}
+			data := e.Data
+			if i == c.CrashAfter {
+				cut := c.CrashAtByte
+				if cut > len(data) {
+					cut = len(data)
+				}
+				data = data[:cut]
+			}
+			if err := writeFileMk(e.Path, data); err != nil {
+				return err
+			}
+		}
+		return nil
+	}
+	absentDir := func(p string) bool {
+		for _, d := range c.AbsentDirs {
+			if p == d || strings.HasPrefix(p, d+"/") {
+				return true
+			}
+		}
+		return false
+	}
+	for _, e := range factoryTemplates {
+		if absentDir(e.Path) {
+			continue
+		}
+		if e.Dir {
+			if err := os.MkdirAll(e.Path, 0o777); err != nil {
+				return err
+			}
+			continue
+		}
+		st := c.Factory[e.Path]
+		if st == "absent" {
+			continue
+		}
+		if err := writeFileMk(e.Path, modified(st, e.Data)); err != nil {
+			return err
+		}
+	}
+	for _, f := range c.User {
+		if err := writeFileMk(f.Path, f.Data); err != nil {
+			return err
+		}
+	}
+	for _, f := range c.Extra {
+		if err := writeFileMk(f.Path, f.Data); err != nil {
+			return err
+		}
+	}
+	if c.HidiToml != nil {
+		if err := writeFileMk("hidi-config/hidi.toml", *c.HidiToml); err != nil {
+			return err
+		}
+	}
+	if c.Blacklist != nil {
+		if err := writeFileMk("hidi-config/device blacklist.txt", *c.Blacklist); err != nil {
+			return err
+		}
+	}
+	if c.CrashKind == "update" {
+		// an earlier upkeep run over this very state was interrupted: factory files before CrashAfter are already
+		// restored, the one at CrashAfter was opened with truncation and cut at a byte, the rest is as above
+		files := factoryFiles()
+		for i, e := range files {
+			if i > c.CrashAfter {
+				break
+			}
+			data := e.Data
+			if i == c.CrashAfter {
+				cut := c.CrashAtByte
+				if cut > len(data) {
+					cut = len(data)
+				}
+				data = data[:cut]
+			}
+			if err := writeFileMk(e.Path, data); err != nil {
+				return err
+			}
+		}
+	}
+	return nil
+}
+
+func checkC18(c C18Case) (nontrivial bool, v *harness.Violation) {
+	root, err := os.MkdirTemp(".", "c18-")
+	if err != nil {
+		return false, harness.NewViolation("C18", "harness", "", "mkdtemp: %v", err)
+	}
+	root, _ = filepath.Abs(root)
+	defer os.RemoveAll(root)
+	herr := harness.InDir(root, func() {
+		if err := buildC18(&c); err != nil {
+			v = harness.NewViolation("C18", "harness", "", "cannot build the fixture: %v", err)
+			return
+		}
+		before := snapshot(".")
+		existed := len(before) > 1
+		v = harness.Guard("C18", "panic", func() *harness.Violation {
+			if err := updateHIDIConfiguration(); err != nil {
+				return harness.NewViolation("C18", "upkeep-error", "", "updateHIDIConfiguration failed on a state made only of absent/truncated/modified files: %v", err)
+			}
+			after := snapshot(".")
+			// 1. every built-in factory file present and identical to its template
+			for _, e := range factoryTemplates {
+				if e.Dir {
+					if after[e.Path+"/"] != "dir" {
+						return harness.NewViolation("C18", "factory-dir-missing", "", "%s does not exist after upkeep", e.Path)
+					}
+					continue
+				}
+				want := fmt.Sprintf("%d:%x", len(e.Data), sha256.Sum256(e.Data))
+				if got, ok := after[e.Path]; !ok {
+					return harness.NewViolation("C18", "factory-file-missing", c.CrashKind, "%s does not exist after upkeep (it was %q before)", e.Path, c.Factory[e.Path])
+				} else if got != want {
+					data, _ := os.ReadFile(e.Path)
+					return harness.NewViolation("C18", "factory-file-differs", c.Factory[e.Path]+c.CrashKind,
+						"%s differs from its built-in template after upkeep (state before: %q, crash state: %q): %d bytes on disk, template has %d; common prefix %d bytes",
+						e.Path, c.Factory[e.Path], c.CrashKind, len(data), len(e.Data), commonPrefix(data, e.Data))
+				}
+			}
+			if !existed {
+				// 4. the complete template tree, nothing else
+				for _, e := range allTemplates {
+					key := e.Path
+					if e.Dir {
+						key += "/"
+						if after[key] != "dir" {
+							return harness.NewViolation("C18", "template-tree-incomplete", "", "first start: directory %s was not created", e.Path)
+						}
+						continue
+					}
+					want := fmt.Sprintf("%d:%x", len(e.Data), sha256.Sum256(e.Data))
+					if after[key] != want {
+						return harness.NewViolation("C18", "template-tree-incomplete", "", "first start: %s missing or different from its template", e.Path)
+					}
+				}
+			} else {
+				// 2. user files, hidi.toml and an existing blacklist untouched; nothing appears or disappears below user/
+				for p, h := range before {
+					protected := strings.HasPrefix(p, "hidi-config/user/") || p == "hidi-config/hidi.toml" || p == "hidi-config/device blacklist.txt"
+					for _, x := range c.Extra {
+						if p == x.Path {
+							protected = true
+						}
+					}
+					if protected && c.CrashKind != "create" && after[p] != h {
+						return harness.NewViolation("C18", "protected-file-touched", protectedKind(p), "%s was %s before upkeep and is %s afterwards", p, h, orAbsent(after[p]))
+					}
+				}
+				for p := range after {
+					if strings.HasPrefix(p, "hidi-config/user/") {
+						if _, ok := before[p]; !ok {
+							return harness.NewViolation("C18", "user-tree-changed", "", "%s appeared below user/ during upkeep", p)
+						}
+					}
+				}
+				// 3. blacklist created iff missing
+				if _, had := before["hidi-config/device blacklist.txt"]; !had {
+					tmpl, _ := fs.ReadFile(templateConfig, "hidi-config/device blacklist.txt")
+					want := fmt.Sprintf("%d:%x", len(tmpl), sha256.Sum256(tmpl))
+					if after["hidi-config/device blacklist.txt"] != want {
+						return harness.NewViolation("C18", "blacklist-not-created", "", "the device blacklist was missing and is %s after upkeep (template: %s)", orAbsent(after["hidi-config/device blacklist.txt"]), want)
+					}
+				}
+				if _, had := before["hidi-config/hidi.toml"]; !had && c.CrashKind == "" {
+					if _, now := after["hidi-config/hidi.toml"]; now {
+						// creating a missing hidi.toml is not forbidden by the property; nothing asserted
+						harness.Classify("hidi.toml created although only the factory files are owed")
+					}
+				}
+			}
+			// 5. running it again changes nothing
+			for i := 0; i < c.Reruns; i++ {
+				if err := updateHIDIConfiguration(); err != nil {
+					return harness.NewViolation("C18", "rerun-error", "", "run %d of upkeep failed: %v", i+2, err)
+				}
+				again := snapshot(".")
+				if d := diffSnap(after, again); d != "" {
+					return harness.NewViolation("C18", "not-idempotent", "", "run %d of upkeep changed the tree: %s", i+2, d)
+				}
+			}
+			return nil
+		})
+	})
+	if herr != nil {
+		return false, harness.NewViolation("C18", "harness", "", "chdir: %v", herr)
+	}
+	for _, st := range c.Factory {
+		if strings.HasPrefix(st, "trunc:") || st == "longer" {
+			nontrivial = nontrivial || len(c.User) > 0
+		}
+	}
+	if c.CrashKind != "" {
+		nontrivial = true
+		harness.Classify("crash state: " + c.CrashKind)
+	}
+	if !c.DirExists && c.CrashKind == "" {
+		harness.Classify("first start (no directory)")
+	}
+	return nontrivial, v
+}
+
+func protectedKind(p string) string {
+	switch {
+	case strings.HasPrefix(p, "hidi-config/user/"):
+		return "user"
+	case strings.HasSuffix(p, "hidi.toml"):
+		return "hidi.toml"
+	case strings.HasSuffix(p, "blacklist.txt"):
+		return "blacklist"
+	}
+	return "extra"
+}
+
+func orAbsent(s string) string {
+	if s == "" {
+		return "absent"
+	}
+	return s
+}
+
+func commonPrefix(a, b []byte) int {
+	n := 0
+	for n < len(a) && n < len(b) && a[n] == b[n] {
+		n++
+	}
+	return n
+}
+
+func diffSnap(a, b map[string]string) string {
+	var keys []string
+	for k := range a {
+		keys = append(keys, k)
+	}
+	for k := range b {
+		if _, ok := a[k]; !ok {
+			keys = append(keys, k)
+		}
+	}
+	sort.Strings(keys)
+	for _, k := range keys {
+		if a[k] != b[k] {
+			return fmt.Sprintf("%s: %s -> %s", k, orAbsent(a[k]), orAbsent(b[k]))
+		}
+	}
+	return ""
+}
+
+func genBytes(t *rapid.T, label string) []byte {
+	switch rapid.IntRange(0, 3).Draw(t, label+"Kind") {
+	case 0:
+		return []byte{}
+	case 1:
+		return []byte("# my own file\nvalue = 1\n")
+	case 2:
+		return rapid.SliceOfN(rapid.Byte(), 0, 200).Draw(t, label)
+	}
+	return bytes.Repeat([]byte("0123456789abcdef\n"), rapid.IntRange(1, 600).Draw(t, label+"Len"))
+}
+
+func genC18(t *rapid.T) C18Case {
+	c := C18Case{Factory: map[string]string{}, DirExists: rapid.IntRange(0, 9).Draw(t, "dirExists") > 0}
+	c.Reruns = rapid.IntRange(0, 2).Draw(t, "reruns")
+	files := factoryFiles()
+	switch rapid.IntRange(0, 9).Draw(t, "crash") {
+	case 0:
+		c.CrashKind = "create"
+		c.CrashAfter = rapid.IntRange(0, len(allTemplates)-1).Draw(t, "crashAfter")
+		c.CrashAtByte = rapid.IntRange(0, len(allTemplates[c.CrashAfter].Data)).Draw(t, "crashByte")
+		return c
+	case 1, 2:
+		c.CrashKind = "update"
+		c.DirExists = true
+		c.CrashAfter = rapid.IntRange(0, len(files)-1).Draw(t, "crashAfter")
+		c.CrashAtByte = rapid.IntRange(0, len(files[c.CrashAfter].Data)).Draw(t, "crashByte")
+	}
+	if !c.DirExists {
+		return c
+	}
+	for _, f := range files {
+		switch k := rapid.IntRange(0, 11).Draw(t, "state"); {
+		case k < 4:
+			c.Factory[f.Path] = "intact"
+		case k < 6:
+			c.Factory[f.Path] = "absent"
+		case k < 9:
+			c.Factory[f.Path] = fmt.Sprintf("trunc:%d", rapid.IntRange(0, len(f.Data)).Draw(t, "truncAt"))
+		case k == 9:
+			c.Factory[f.Path] = "shorter"
+		case k == 10:
+			c.Factory[f.Path] = "same"
+		default:
+			c.Factory[f.Path] = "longer"
+		}
+	}
+	for _, d := range []string{"hidi-config/factory", "hidi-config/factory/gamepad", "hidi-config/factory/keyboard"} {
+		if rapid.IntRange(0, 7).Draw(t, "absentDir") == 0 {
+			c.AbsentDirs = append(c.AbsentDirs, d)
+		}
+	}
+	userNames := []string{"hidi-config/user/keyboard/mine.toml", "hidi-config/user/gamepad/0_default.toml", "hidi-config/user/README.md",
+		"hidi-config/user/keyboard/0_default.toml", "hidi-config/user/notes/deep/x.txt", "hidi-config/user/gamepad/PS4_Controller.toml", "hidi-config/user/factory/gamepad/0_default.toml"}
+	for _, n := range userNames {
+		if rapid.IntRange(0, 2).Draw(t, "hasUser") == 0 {
+			c.User = append(c.User, c18File{Path: n, Data: genBytes(t, "user")})
+		}
+	}
+	if rapid.IntRange(0, 3).Draw(t, "hasHidi") > 0 {
+		b := genBytes(t, "hidi")
+		c.HidiToml = &b
+	}
+	if rapid.IntRange(0, 2).Draw(t, "hasBlacklist") > 0 {
+		b := genBytes(t, "blacklist")
+		c.Blacklist = &b
+	}
+	for _, n := range []string{"hidi-config/notes.txt", "hidi-config/backup/factory/keyboard/0_default.toml"} {
+		if rapid.IntRange(0, 3).Draw(t, "hasExtra") == 0 {
+			c.Extra = append(c.Extra, c18File{Path: n, Data: genBytes(t, "extra")})
+		}
+	}
+	return c
+}
+
+func TestC18(t *testing.T) { harness.ReplayOrRapid(t, harness.NewRun(t, "C18"), checkC18, genC18) }
+
+// TestC18Templates: the built-in templates are the files of cmd/hidi/hidi-config in the source tree.
+func TestC18Templates(t *testing.T) {
+	r := harness.NewRun(t, "C18")
+	defer r.Finish()
+	repo := os.Getenv("VERIF_REPO")
+	if repo == "" {
+		repo = "/repo"
+	}
+	src := filepath.Join(repo, "cmd/hidi/hidi-config")
+	onDisk := map[string][]byte{}
+	_ = filepath.Walk(src, func(path string, info os.FileInfo, err error) error {
+		if err == nil && !info.IsDir() {
+			rel, _ := filepath.Rel(filepath.Join(repo, "cmd/hidi"), path)
+			onDisk[rel], _ = os.ReadFile(path)
+		}
+		return nil
+	})
+	embedded := map[string][]byte{}
+	for _, e := range allTemplates {
+		if !e.Dir {
+			embedded[e.Path] = e.Data
+		}
+	}
+	type tc struct {
+		Path string `json:"path"`
+	}
+	for p, data := range onDisk {
+		var v *harness.Violation
+		if e, ok := embedded[p]; !ok {
+			v = harness.NewViolation("C18", "template-not-built-in", "", "%s exists in the source tree but is not part of the built-in template tree", p)
+		} else if !bytes.Equal(e, data) {
+			v = harness.NewViolation("C18", "template-differs", "", "%s: built-in template differs from the source file", p)
+		}
+		harness.Eval(r, t, tc{p}, true, v)
+	}
+}
+
+// ---------------------------------------------------------------- C09 (hidi.toml)
+
+type C09HidiCase struct {
+	Data []byte `json:"data"`
+}
+
+func checkC09Hidi(c C09HidiCase) (bool, *harness.Violation) {
+	f, err := os.CreateTemp(".", "hidi-*.toml")
+	if err != nil {
+		return false, harness.NewViolation("C09", "harness", "", "temp file: %v", err)
+	}
+	path := f.Name()
+	f.Write(c.Data)
+	f.Close()
+	defer os.Remove(path)
+	type result struct {
+		v   *harness.Violation
+		err error
+	}
+	done := make(chan result, 1)
+	go func() {
+		var lerr error
+		v := harness.Guard("C09", "panic", func() *harness.Violation {
+			_, lerr = LoadHIDIConfig(path)
+			return nil
+		})
+		done <- result{v, lerr}
+	}()
+	select {
+	case r := <-done:
+		if r.v != nil {
+			r.v.Message = fmt.Sprintf("LoadHIDIConfig panicked on a %d-byte hidi.toml %q\n%s", len(c.Data), clipStr(string(c.Data), 300), r.v.Message)
+			return true, r.v
+		}
+		if r.err == nil {
+			harness.Classify("hidi.toml accepted")
+		} else {
+			harness.Classify("hidi.toml rejected")
+		}
+		return r.err == nil || bytes.Contains(c.Data, []byte("pool_rate")), nil
+	case <-time.After(10 * time.Second):
+		return true, harness.NewViolation("C09", "hang", "hidi.toml", "LoadHIDIConfig did not return within 10 s on %q", clipStr(string(c.Data), 300))
+	}
+}
+
+func clipStr(s string, n int) string {
+	if len(s) > n {
+		return s[:n] + "…"
+	}
+	return s
+}
+
+var hidiKeys = []string{"pool_rate", "discovery_rate", "stabilization_period", "log_view_rate", "log_buffer_size", "HIDI", "hidi", "extra"}
+
+func genHidiScalar(t *rapid.T) string {
+	return rapid.SampledFrom([]string{"0", "1", "120", "-1", "-120", "9223372036854775807", "-9223372036854775808", "0x10", "1_000", "0.5", "1e3", "inf", "nan",
+		"true", "\"120\"", "\"\"", "[1, 2]", "[]", "{ a = 1 }", "1979-05-27T07:32:00Z", "07:32:00", "1000000000", "1000000001", "2000000000", "99999999999999999999"}).Draw(t, "scalar")
+}
+
+func genC09Hidi(t *rapid.T) C09HidiCase {
+	factory, _ := fs.ReadFile(templateConfig, "hidi-config/hidi.toml")
+	switch k := rapid.IntRange(0, 9).Draw(t, "source"); {
+	case k == 0:
+		return C09HidiCase{Data: rapid.SliceOfN(rapid.Byte(), 0, 512).Draw(t, "bytes")}
+	case k <= 5:
+		var b strings.Builder
+		if rapid.IntRange(0, 4).Draw(t, "header") > 0 {
+			b.WriteString(rapid.SampledFrom([]string{"[HIDI]", "[hidi]", "[[HIDI]]", "[HIDI.pool_rate]", "[other]"}).Draw(t, "hdr") + "\n")
+		}
+		n := rapid.IntRange(0, 8).Draw(t, "lines")
+		for i := 0; i < n; i++ {
+			key := rapid.SampledFrom(hidiKeys).Draw(t, "key")
+			if rapid.IntRange(0, 5).Draw(t, "dotted") == 0 {
+				key = "HIDI." + key
+			}
+			fmt.Fprintf(&b, "%s = %s\n", key, genHidiScalar(t))
+			if rapid.IntRange(0, 7).Draw(t, "midHeader") == 0 {
+				b.WriteString("[HIDI]\n")
+			}
+		}
+		return C09HidiCase{Data: []byte(b.String())}
+	default: // the factory hidi.toml with mutations
+		lines := strings.Split(string(factory), "\n")
+		for m := rapid.IntRange(1, 3).Draw(t, "mutations"); m > 0 && len(lines) > 0; m-- {
+			pos := rapid.IntRange(0, len(lines)-1).Draw(t, "line")
+			switch rapid.IntRange(0, 4).Draw(t, "mutation") {
+			case 0:
+				lines = append(lines[:pos], lines[pos+1:]...)
+			case 1:
+				lines = append(lines[:pos+1], lines[pos:]...)
+			case 2:
+				if j := strings.Index(lines[pos], "="); j >= 0 {
+					lines[pos] = lines[pos][:j+1] + " " + genHidiScalar(t)
+				}
+			case 3:
+				joined := strings.Join(lines, "\n")
+				lines = strings.Split(joined[:rapid.IntRange(0, len(joined)).Draw(t, "cut")], "\n")
+			case 4:
+				if len(lines[pos]) > 0 {
+					bs := []byte(lines[pos])
+					bs[rapid.IntRange(0, len(bs)-1).Draw(t, "bytePos")] = rapid.Byte().Draw(t, "byte")
+					lines[pos] = string(bs)
+				}
+			}
+		}
+		return C09HidiCase{Data: []byte(strings.Join(lines, "\n"))}
+	}
+}
+
+func TestC09Hidi(t *testing.T) {
+	harness.ReplayOrRapid(t, harness.NewRun(t, "C09"), checkC09Hidi, genC09Hidi)
+}
